@@ -60,6 +60,51 @@ def history_script(table, X):
     return pre, len(hist)
 
 
+_CROLE_CACHE = {}
+
+
+def content_param(cf, role):
+    """The parameter of the content function that plays ``role`` (encoding, length, line_endings, indent, keep_bytes):
+    the parameter of that name when there is one, else the parameter used in that role in the function's body (the
+    argument of .decode() / of an ``encoding=`` keyword; of .read(); the first argument of get_newline_for_type; the
+    operand of a bytes %-format / re.compile; the flag tested around the decode), else None."""
+    key = (id(cf), role)
+    if key in _CROLE_CACHE:
+        return _CROLE_CACHE[key]
+    import ast as _ast
+    params = [p_ for p_ in cf.params() if p_ not in ('self', 'cls')]
+    res = role if role in params else None
+    if res is None:
+        cands = []
+
+        def names(n):
+            return [x.id for x in _ast.walk(n) if isinstance(x, _ast.Name) and x.id in params]
+        for n in _ast.walk(cf.node):
+            if not isinstance(n, _ast.Call):
+                continue
+            fn = n.func.attr if isinstance(n.func, _ast.Attribute) else n.func.id if isinstance(n.func, _ast.Name) else None
+            if role == 'encoding':
+                if fn == 'decode' and n.args:
+                    cands += names(n.args[0])
+                cands += [x for kw in n.keywords if kw.arg == 'encoding' for x in names(kw.value)]
+            elif role == 'length' and fn == 'read' and n.args:
+                cands += names(n.args[0])
+            elif role == 'line_endings' and fn == 'get_newline_for_type':
+                cands += names(n.args[0]) if n.args else [x for kw in n.keywords if kw.arg == 'line_endings' for x in names(kw.value)]
+            elif role == 'indent' and fn == 'compile' and n.args:
+                cands += names(n.args[0])
+        if role == 'keep_bytes':
+            enc = content_param(cf, 'encoding')
+            for n in _ast.walk(cf.node):
+                if isinstance(n, _ast.If) and any(isinstance(c, _ast.Call) and isinstance(c.func, _ast.Attribute) and c.func.attr == 'decode'
+                                                  for b in n.body for c in _ast.walk(b)):
+                    cands += [x for x in names(n.test) if x != enc]
+        uniq = sorted(set(cands))
+        res = uniq[0] if len(uniq) == 1 else None
+    _CROLE_CACHE[key] = res
+    return res
+
+
 def _record_sharing(R, evs, yields, out):
     """Containers handed to the consumer must be the consumer's own: not module/class-level objects,
     not objects the reader keeps, not objects already handed out in an earlier record."""
@@ -238,18 +283,19 @@ def _task(X):
         for e in enters:
             loc = e.data['locals']
             desc = []
+            back = {content_param(cf, r_): r_ for r_ in ('encoding', 'length', 'line_endings', 'indent', 'keep_bytes')}
             for k, v in sorted(loc.items()):
                 if k == 'self':
                     continue
+                k = back.get(k, k)       # parameters are reported under the role they play, whatever they are called
                 if is_concrete(v):
                     desc.append((k, 'const', concrete(v)))
                 else:
                     desc.append((k, 'option', option_origin(v)))
-            out['content_params'].add(tuple(desc))
-            le = loc.get('line_endings')
+            out['content_params'].add(tuple(sorted(desc, key=repr)))
         # encoding handed to the newline helpers: must be the very encoding the content function was given
         for e in enters:
-            enc_local = e.data['locals'].get('encoding')
+            enc_local = e.data['locals'].get(content_param(cf, 'encoding'))
             for e2 in evs:
                 if e2.kind == 'summary-call' and 'encoding' in e2.data['args'] and cf in e2.stack:
                     a_ = e2.data['args']['encoding']
@@ -296,7 +342,7 @@ def _task(X):
                 out['decode_unit'].add('whole content' if whole else 'one line at a time')
         for dd in decs:
             enc_ = dd.data['encoding']
-            params_ = [e_.data['locals'].get('encoding') for e_ in enters]
+            params_ = [e_.data['locals'].get(content_param(cf, 'encoding')) for e_ in enters]
             if any(enc_ is p_ or (is_concrete(enc_) and is_concrete(p_) and concrete(enc_) == concrete(p_)) for p_ in params_):
                 out['decode_enc'].add('encoding')           # the very encoding the content function was given
             elif is_concrete(enc_):
